@@ -95,6 +95,21 @@ func propSuites(t *rapid.T) {
 	if !bytes.Equal(d, dOrig) || !bytes.Equal(msg, mOrig) {
 		t.Fatal("inputs modified")
 	}
+	// a related call in between (DST with its last byte changed), then the original again
+	d2 := append([]byte(nil), dOrig...)
+	d2[len(d2)-1] ^= 0x01
+	var mid *secp256k1.Point
+	var wmid ref.Pt
+	if ro {
+		mid, _ = h2c.Secp256k1_XMD_SHA256_SSWU_RO(d2, mOrig)
+		wmid, _ = ref.HashToCurveRO(mOrig, d2)
+	} else {
+		mid, _ = h2c.Secp256k1_XMD_SHA256_SSWU_NU(d2, mOrig)
+		wmid, _ = ref.EncodeToCurveNU(mOrig, d2)
+	}
+	if mid == nil || !bytes.Equal(mid.UncompressedBytes(), wmid.Uncompressed()) {
+		t.Fatalf("h2c(ro=%v, dst %x, msg %x) right after the same message under dst %x: wrong point", ro, d2, mOrig, dOrig)
+	}
 	// pure function
 	var again *secp256k1.Point
 	if ro {
